@@ -345,8 +345,9 @@ def _cat(parts):
     return TS("".join(p.t for p in parts), [x for p in parts for x in p.o])
 
 
-def mirror_render(templates, main_text, pctx, strict=False, max_depth=60, shielding=True, filters=()):
-    """templates: [(name, text)]; pctx: Python context.
+def mirror_render(templates, main_text, pctx, strict=False, max_depth=60, shielding=True, filters=(), req=None):
+    """templates: [(name, text)]; pctx: Python context; req: the required names of the rendered mRNA when its
+    codons are hand-written (None = auto-detected: the {{name}} occurrences of its text).
     -> dict(text, origins, warnings [(kind, name)], error None|(kind, name), pairs set((origin, pass)))"""
     T = dict(templates)
     FN = filter_names(filters)
@@ -387,13 +388,14 @@ def mirror_render(templates, main_text, pctx, strict=False, max_depth=60, shield
             raise MirrorError("depth")
         warnings = []
         outside = RX_EACH.sub("", text)
-        for m in RX_SIMPLE.finditer(text):
-            if m.group(1) not in pctx:
-                if "{{" + m.group(1) + "}}" not in outside:
+        required = [m.group(1) for m in RX_SIMPLE.finditer(text)] if (req is None or depth > 0) else req
+        for name in required:
+            if name not in pctx:
+                if "{{" + name + "}}" not in outside:
                     continue
                 if strict:
-                    raise MirrorError("value", m.group(1))
-                warnings.append((0, m.group(1)))
+                    raise MirrorError("value", name)
+                warnings.append((0, name))
         ts = TS(text)
 
         def r_if(m, ts):
@@ -946,6 +948,9 @@ def calls_of(case):
     """the operations of the history, in order.  An element is
          {"main": ast, "ctx": ctx}                              synthesize(main, **ctx)
          {"op": "render_obj", "own": name, "main", "ctx"}       translate(mRNA(main, name=own) NOT registered, **ctx)
+              with "codons": [[type, name, required], ...] (non-empty) the mRNA is built with HAND-WRITTEN codons
+              (mRNA(main, name=own, codons=[Codon(CodonType(type), name, required=required), ...])): they replace the
+              auto-detected ones, whatever they declare
          {"op": "translate", "name": n, "ctx": ctx}             translate(n, **ctx)
          {"op": "register", "name": n, "own": o, "how": h, "tpl": ast}
               h = "create": create_template(tpl, n); "register": register_template(mRNA(tpl, name=n));
@@ -959,6 +964,9 @@ def calls_of(case):
        case-level keys describe).  An operation addressed to an instance that does not exist yet addresses nothing
        and is dropped here (it can only arise when a history is shrunk)."""
     if "calls" not in case:
+        if case.get("codons"):
+            return [{"op": "render_obj", "own": "_direct_", "main": case["main"], "ctx": case["ctx"],
+                     "codons": case["codons"]}]
         return [{"main": case["main"], "ctx": case["ctx"]}]
     out, n = [], 1
     for op in case["calls"]:
@@ -1072,6 +1080,7 @@ def sub_case(case, k):
         main = op["main"]
     keys = ("silent", "init", "describe") if op_on(op) == 0 else ("silent",)
     return {**{k: case[k] for k in keys if k in case},      # same configuration
+            **({"codons": op["codons"]} if op.get("codons") else {}),
             "templates": reg, "strict": strict, "phase": case.get("phase", "free"),
             "main": main, "ctx": op["ctx"], "filters": table}
 
@@ -1192,7 +1201,7 @@ def _run_history(case, escd=False):
 
 
 def _run_history_1(case, escd=False):
-    from operon_ai.organelles.ribosome import Ribosome, mRNA
+    from operon_ai.organelles.ribosome import Ribosome, mRNA, Codon, CodonType
     silent = bool(case.get("silent", True))
     insts = [_construct(Ribosome, mRNA, case["templates"], case_filters(case), case["strict"], silent, escd,
                         case.get("init"), bool(case.get("describe")))]
@@ -1254,7 +1263,11 @@ def _run_history_1(case, escd=False):
             out.append(_guard(lambda: r.translate(op["name"], **pctx)))
         elif kind == "render_obj":
             pctx = py_ctx(op["ctx"], escd)
-            m = mRNA(sequence=pr(op["main"], escd), name=op["own"])
+            if op.get("codons"):
+                m = mRNA(sequence=pr(op["main"], escd), name=op["own"],
+                         codons=[Codon(codon_type=CodonType(t), name=nm, required=bool(rq)) for t, nm, rq in op["codons"]])
+            else:
+                m = mRNA(sequence=pr(op["main"], escd), name=op["own"])
             out.append(_guard(lambda: r.translate(m, **pctx)))
         else:
             pctx = py_ctx(op["ctx"], escd)
@@ -1377,6 +1390,119 @@ def coq_value(v):
     return "(VList " + clist([coq_item(it) for it in v["l"]]) + ")"
 
 
+CODON_TYPES = ["variable", "conditional", "loop", "include", "filter"]
+COQ_CTYPE = {"variable": "CtVariable", "conditional": "CtConditional", "loop": "CtLoop", "include": "CtInclude",
+             "filter": "CtFilter"}
+
+
+def req_of(case):
+    """mRNA.get_required_variables() of the rendered mRNA when its codons are hand-written, else None"""
+    cods = case.get("codons")
+    if not cods:
+        return None
+    return [nm for t, nm, rq in cods if rq and t == "variable"]
+
+
+def coq_codons(cods):
+    return clist([ctuple(ctuple(COQ_CTYPE[t], coq_str(nm)), cbool(bool(rq))) for t, nm, rq in cods])
+
+
+def all_plain_vars(ns):
+    """the names written as {{name}} anywhere in a template AST (blocks included), in order, without repeats"""
+    out = []
+    for n in ns:
+        ls = [n] if n[0] not in ("I", "E") else (n[3] + ((n[4] or []) if n[0] == "I" else []))
+        for l in ls:
+            if l[0] == "V" and l[1] not in out:
+                out.append(l[1])
+    return out
+
+
+def gen_codons(r, main):
+    """a hand-written codons list for an mRNA whose text is `main` (never empty: an empty list means auto-detection).
+    It may leave out variables the text uses (35%), declare names the text never uses (20%), declare the used names
+    optional or under another codon type (15%), be unrelated to the text (15%), or repeat / reorder the used names."""
+    used = all_plain_vars(main)
+    k = r.random()
+    V = "variable"
+    if k < 0.35 and used:
+        drop = set(r.sample(used, r.randint(1, len(used))))
+        cods = [[V, x, True] for x in used if x not in drop]
+    elif k < 0.55:
+        cods = [[V, x, True] for x in used] + [[V, x, True] for x in r.sample(VARS + ["zz", "first", "last"], r.randint(1, 2))]
+        r.shuffle(cods)
+    elif k < 0.70:
+        cods = [[r.choice(CODON_TYPES[1:]), x, True] if r.random() < 0.5 else [V, x, False] for x in used]
+    elif k < 0.85:
+        cods = [[r.choice([V, V, V] + CODON_TYPES), r.choice(VARS + ["zz"]), r.random() < 0.75] for _ in range(r.randint(1, 3))]
+    else:
+        cods = [[V, x, True] for x in used + used[:1]]
+        r.shuffle(cods)
+    if not cods:
+        cods = [[r.choice(CODON_TYPES[1:]), r.choice(LIST_VARS), True]]
+    return cods
+
+
+def widen_codons(case, r):
+    """around an already generated history: 12% of its synthesize / translate(mRNA object) operations render an mRNA
+    built with HAND-WRITTEN codons instead (the text, the context and everything else stay as generated)"""
+    def one(op):
+        if op.get("op") not in (None, "render_obj") or r.random() >= 0.12:
+            return op
+        return {**op, "op": "render_obj", "own": op.get("own", "_direct_"), "codons": gen_codons(r, op["main"])}
+    c = dict(case)
+    if "calls" in c:
+        c["calls"] = [one(op) for op in c["calls"]]
+    elif r.random() < 0.12:
+        c["codons"] = gen_codons(r, c["main"])
+    return c
+
+
+def small_scope_cases():
+    """SMALL-SCOPE ENUMERATION (run on every tier, before the generated cases):
+    (A) strict mode x {{#each}} over lists whose items bind the body's variable only PARTLY: every list of 1-2 items
+        over {dict with the key, dict without it, plain string} (12 lists), body '[{{name}}={{k}}]', strict: rendered
+        directly with k unbound / bound in the outer context, and through an include; the lists that mix items with
+        and without the key once more lenient;
+    (B) hand-written codons on 'A{{a}} and {{b}}' (and on a template with a loop and a dead if-branch): codons that
+        declare a only, b only, both, an unused name, a as optional, b under another codon type, a twice x contexts
+        {a}, {a,b}, {} strict, {a}, {} lenient."""
+    out = []
+    full = {"d": [["name", "n1"], ["k", "v1"]]}
+    part = {"d": [["name", "n2"]]}
+    shapes = [full, part, "s3"]
+    lists = [[a] for a in shapes] + [[a, b] for a in shapes for b in shapes]
+    body = [["T", "["], ["V", "name"], ["T", "="], ["V", "k"], ["T", "]"]]
+    loop = ["E", " ", "rows", body]
+    for items in lists:
+        if full in items and len(items) == 2 and items != [full, full]:
+            out.append(W([["T", "Rows: "], loop], [["rows", {"l": items}]], strict=False, phase="free"))
+    for items in lists:
+        for route, outer in (("direct", False), ("direct", True), ("include", False)):
+            ctx = [["rows", {"l": items}]] + ([["k", {"s": "outer"}], ["name", {"s": "N"}]] if outer else [])
+            if route == "direct":
+                out.append(W([["T", "Rows: "], loop], ctx, strict=True, phase="free"))
+            else:
+                out.append(W([["T", "Rows: "], ["G", "t1"]], ctx, templates=[["t1", [loop, ["T", "."]]]],
+                             strict=True, phase="free"))
+    ab = [["T", "A"], ["V", "a"], ["T", " and "], ["V", "b"]]
+    mixed = [["I", " ", "flag", [["V", "m1"]], [["T", "no "]]], ["E", " ", "xs", [["V", "item"], ["V", "k"]]], ["V", "a"]]
+    V = "variable"
+    decls = [[[V, "a", True]], [[V, "b", True]], [[V, "a", True], [V, "b", True]], [[V, "zz", True]],
+             [[V, "a", False]], [["conditional", "b", True], [V, "a", True]], [[V, "a", True], [V, "a", True]]]
+    ctxs = [[["a", {"s": "1"}]], [["a", {"s": "1"}], ["b", {"s": "{{a}}"}]], []]
+    for cods in decls:
+        for ctx in ctxs:
+            for strict in ((True, False) if len(ctx) < 2 else (True,)):
+                out.append({**W(ab, ctx, strict=strict, phase="free" if len(ctx) < 2 else "adv"), "codons": cods})
+    for cods in ([[V, "a", True]], [[V, "m1", True], [V, "k", True]]):
+        for ctx in ([["a", {"s": "1"}], ["xs", {"l": ["p", {"d": [["k", "q"]]}]}]],
+                    [["a", {"s": "1"}], ["xs", {"l": [{"d": [["k", "q"]]}]}], ["flag", {"b": True}]]):
+            for strict in (True, False):
+                out.append({**W(mixed, ctx, strict=strict, phase="free"), "codons": cods})
+    return out
+
+
 def loop_bound_names(case):
     """names a plain variable inside an each-body may legitimately resolve to"""
     out = set()
@@ -1424,7 +1550,16 @@ class C12(Check):
     CASE_TYPE = "case"
     N_QUICK = 1200
     N_THOROUGH = 16000
-    RULE = ("A quarter of the generated histories is set in a PROCESS WITH 2-3 Ribosome OBJECTS: the other instances are "
+    RULE = ("SMALL-SCOPE ENUMERATION first (83 cases, every tier): strict mode x {{#each}} over every list of 1-2 items from "
+            "{dict with the key the body names, dict without it, plain string} - directly, with an outer binding of the key, and "
+            "through an include (the lists that mix both kinds once more lenient); and an mRNA with HAND-WRITTEN codons "
+            "(mRNA(text, codons=[Codon(type, name, required)...]): codons declaring fewer variables than the text uses, other "
+            "names, a name twice, optional or non-variable codons) x contexts that bind all / some / none of the variables x "
+            "strict / lenient. In the generated histories 12% of the synthesize / translate(mRNA object) operations render an "
+            "mRNA built with hand-written codons instead (a list that leaves out used variables 35%, adds unused names 20%, "
+            "declares them optional or under another codon type 15%, is unrelated to the text 15%, repeats / reorders 15%); "
+            "the reference renderer never looks at codons. "
+            "A quarter of the generated histories is set in a PROCESS WITH 2-3 Ribosome OBJECTS: the other instances are "
             "constructed at any position (before everything, between operations, after filters were stored elsewhere) with a "
             "filter table, templates (the same names with the same or other texts, or none) and strict flag of their own; 1-4 "
             "further operations on any instance: a filter stored after construction (r.filters[w] = f; half of them through a "
@@ -1475,7 +1610,16 @@ class C12(Check):
                   "scanner match of any pass ever covers a code point that did not come from the template: the (origin, pass) log "
                   "is empty, any outcome), c12_filter_applied_to_raw_value ({{x|f}} renders f applied to the bound value itself, for each of the "
                   "seven built-in filters and every custom filter of the table), c12_strict_loop_vars / "
-                  "c12_strict_unbound_is_error, c12_missing_plain_var_warned, c12_unknown_include_marker, c12_render_uses_current_registry (on one instance every operation of a history - "
+                  "c12_strict_unbound_is_error, c12_missing_plain_var_warned, c12_unknown_include_marker; for an mRNA whose codons are "
+                  "HAND-WRITTEN (any list: fewer / other / repeated names, optional or non-variable codons; the empty list is the "
+                  "auto-detected one): c12_codons_only_add_reports (the codons decide only which 'Missing required variable' reports the "
+                  "up-front check makes - about names declared required, unbound and written outside loop bodies - text, errors "
+                  "and warnings of the passes do not take them; any sequence), c12_render_eq_any_codons, c12_strict_any_codons "
+                  "(strict mode renders the reference expansion as soon as the up-front check passes), "
+                  "c12_rendered_unbound_var_reported (a plain variable still there after the blocks are expanded - one copy of a "
+                  "loop body PER ITEM, so a key only some items carry - and unbound is an error in strict mode and an 'Unbound "
+                  "variable' warning otherwise, whatever the codons declare), c12_opacity_any_codons, c12_auto_codons; "
+                  "c12_render_uses_current_registry (on one instance every operation of a history - "
                   "registrations, filters stored after construction, synthesize, translate by name or of an mRNA object - answers a "
                   "pure function of the filter table and the registry of that instance at that moment, strict and the operation) "
                   "with c12_registration_is_assignment and c12_filter_store_is_assignment; c12_instances_isolated (in a process with "
@@ -1528,9 +1672,11 @@ class C12(Check):
                    "process is a list of such instances); the counters "
                    "themselves are not observed: get_statistics()/list_templates() are called between operations, but only "
                    "their being without effect on every later render is checked (what they return is outside the property)",
-                   "the console output of a non-silent instance is captured and not judged; mRNA objects are built from their "
-                   "text (codons auto-detected; an explicit codons= list, which replaces the required-variable scan, is not "
-                   "exercised)",
+                   "the console output of a non-silent instance is captured and not judged; REGISTERED templates are built from "
+                   "their text (codons auto-detected); hand-written codons (an explicit codons= list, which replaces the "
+                   "required-variable scan) are exercised and modelled on the mRNA object handed to translate(), with identifier "
+                   "names; a registered template with hand-written codons and mutation of mRNA.codons after construction are not "
+                   "exercised",
                    "included templates form an acyclic graph (a cycle is RecursionError in the code, OutOfFuel in the model)"]
 
     # -- generation --------------------------------------------------------
@@ -1556,9 +1702,13 @@ class C12(Check):
                 keep = c
                 break
             # the widening is drawn from a generator of its own, so the renders are exactly those generated before
-            out.append(widen(keep, random.Random(f"C12:widen:{self.seed}:{n}:{i}")))
+            out.append(widen_codons(widen(keep, random.Random(f"C12:widen:{self.seed}:{n}:{i}")),
+                                    random.Random(f"C12:codons:{self.seed}:{n}:{i}")))
         self.extra_cov["generated_cases_dropped_for_output_size"] = getattr(self, "oversized", 0)
         return out
+
+    def exhaustive_cases(self):
+        return small_scope_cases()
 
     def extra_checks(self):
         # how many histories left a module-level / class-level container of ribosome.py different from how they found
@@ -1679,6 +1829,24 @@ class C12(Check):
                        {"main": [["P", "who", "polite"], ["P", "who", "upper"]], "ctx": [["who", {"s": "{x}"}]], "on": 2},
                        {"main": [["P", "who", "polite"], ["P", "who", "upper"]], "ctx": [["who", {"s": "{x}"}]]},
                        {"main": [["P", "who", "polite"], ["P", "who", "upper"]], "ctx": [["who", {"s": "{x}"}]], "on": 1}]},
+            # strict mode, a loop over dict items of which only the first carries the key the body names: {{email}} stays
+            # unbound for the second item (an error in strict mode) - directly and through an include
+            # (lenient first: the second row renders {{email}} as written, with a warning)
+            W([["T", "Team:"], ["E", " ", "users", [["T", " "], ["V", "name"], ["T", " <"], ["V", "email"], ["T", ">;"]]]],
+              [["users", {"l": [{"d": [["name", "ann"], ["email", "a@x"]]}, {"d": [["name", "bob"]]}]}]], phase="free"),
+            W([["T", "Team:"], ["E", " ", "users", [["T", " "], ["V", "name"], ["T", " <"], ["V", "email"], ["T", ">;"]]]],
+              [["users", {"l": [{"d": [["name", "ann"], ["email", "a@x"]]}, {"d": [["name", "bob"]]}]}]], strict=True, phase="free"),
+            W([["T", "Rows: "], ["G", "t1"]], [["rows", {"l": [{"d": [["k", "a"], ["v", "1"]]}, {"d": [["k", "b"]]}]}]],
+              templates=[["t1", [["E", " ", "rows", [["T", "["], ["V", "k"], ["T", "="], ["V", "v"], ["T", "]"]]]]]],
+              strict=True, phase="free"),
+            # an mRNA with hand-written codons that do not declare a slot its text uses; then the same text auto-detected
+            {"templates": [], "strict": True, "phase": "free", "filters": [],
+             "calls": [{"op": "render_obj", "own": "manual", "main": [["V", "a"], ["T", " and "], ["V", "b"]],
+                        "ctx": [["a", {"s": "1"}]], "codons": [["variable", "a", True]]},
+                       {"op": "render_obj", "own": "manual", "main": [["V", "a"], ["T", " and "], ["V", "b"]],
+                        "ctx": [["a", {"s": "1"}], ["b", {"s": "{{a}}"}]],
+                        "codons": [["variable", "a", True], ["variable", "zz", True], ["loop", "b", True]]},
+                       {"main": [["V", "a"], ["T", " and "], ["V", "b"]], "ctx": [["a", {"s": "1"}]]}]},
         ]
         return base + super().corpus_cases()
 
@@ -1689,10 +1857,11 @@ class C12(Check):
     def _run_call(self, case, real, esc_real):
         tpl_text = [(n, pr(t)) for n, t in case["templates"]]
         table = case_filters(case)
-        mir = mirror_render(tpl_text, pr(case["main"]), py_ctx(case["ctx"]), case["strict"], filters=table)
+        mir = mirror_render(tpl_text, pr(case["main"]), py_ctx(case["ctx"]), case["strict"], filters=table, req=req_of(case))
         ref = ref_render(case["templates"], case["main"], case["ctx"], case["strict"], table)
         esc_run = esc_real if not ctx_free(case) else None
-        mir_esc = (mirror_render(tpl_text, pr(case["main"]), py_ctx(case["ctx"], True), case["strict"], filters=table)
+        mir_esc = (mirror_render(tpl_text, pr(case["main"]), py_ctx(case["ctx"], True), case["strict"], filters=table,
+                                 req=req_of(case))
                    if esc_run is not None else None)
         if real["error"] is None:
             wrow = []
@@ -1770,6 +1939,8 @@ class C12(Check):
                 o = f"(OpSetFilter {coq_str(op['name'])} {COQ_CUSTOM[op['kind']]})"
             elif kind == "translate":
                 o = f"(OpTranslate {coq_str(op['name'])} {cctx(op['ctx'])})"
+            elif op.get("codons"):
+                o = f"(OpRenderDecl {coq_tpl(op['main'])} {coq_codons(op['codons'])} {cctx(op['ctx'])})"
             else:
                 o = f"(OpRender {coq_tpl(op['main'])} {cctx(op['ctx'])})"
             items.append(f"(SOn {op_on(op)} {o})")
@@ -1821,7 +1992,8 @@ class C12(Check):
                             return who + f"register {reg_name(o)!r} ({o['how']}, name={o['name']!r}, mRNA.name={o['own']!r})"
                         if tj["real"]["error"]:
                             return who + "raised " + str(tj["real"]["error"])
-                        return who + "rendered" + (f" mRNA named {o['own']!r}" if o.get("op") == "render_obj" else "")
+                        return who + "rendered" + (f" mRNA named {o['own']!r}" if o.get("op") == "render_obj" else "") + (
+                            " with hand-written codons" if o.get("codons") else "")
                     if n_instances(case) > 1:
                         # the operations addressed to this instance, made on a lone instance: do they render the reference?
                         pj, kk = project(case, j, k)
@@ -1869,7 +2041,7 @@ class C12(Check):
                     # unshielded pipeline if THAT reproduces the rendering (a shielding regression)
                     tpl_text = [(n, pr(t)) for n, t in case["templates"]]
                     old = mirror_render(tpl_text, pr(case["main"]), py_ctx(case["ctx"]), case["strict"], shielding=False,
-                                        filters=case_filters(case))
+                                        filters=case_filters(case), req=req_of(case))
                     if old["error"] == real["error"] and old["text"] == real["text"] and old["pairs"]:
                         osigs = sorted({pair_signature(o, p) for o, p in old["pairs"]})
                         return Violation(osigs[0], detail + f"; reproduced by the unshielded pipeline, channels {osigs}")
@@ -1901,9 +2073,13 @@ class C12(Check):
                     if lenient["error"] == "type":
                         return None
                 if not (real["error"] and real["error"][0] == "value"):
+                    how = (f" (the mRNA {pr(case['main'])!r} carries hand-written codons "
+                           f"{[[t, nm] + ([] if rq else ['optional']) for t, nm, rq in case['codons']]})" if case.get("codons") else
+                           f" (template {pr(case['main'])!r})")
                     return Violation("C12/strict-missed",
-                                     (f"strict mode rendered although {ref['name']!r} is missing" if real["error"] is None else
-                                      f"strict mode raised {real['error']} but no 'Missing required variable' although {ref['name']!r} is missing"))
+                                     (f"strict mode rendered {real['text']!r} although {ref['name']!r} is missing" + how
+                                      if real["error"] is None else
+                                      f"strict mode raised {real['error']} but no 'Missing required variable' although {ref['name']!r} is missing" + how))
                 return None
             if real["error"] and real["error"][0] == "value":
                 nm = real["error"][1]
@@ -2019,6 +2195,8 @@ class C12(Check):
                           + ("/empty-name-falls-back-to-own" if not op["name"] else ""))
                 continue
             ks.append("op:" + (op.get("op") or "synthesize"))
+            if op.get("codons"):
+                ks.append("op:render_obj/hand-written-codons")
             sub = sub_case(case, k)
             if sub is None:
                 ks.append("translate-unknown-name")
@@ -2057,6 +2235,8 @@ class C12(Check):
               "wf" if case_wf(case) else "malformed", "includes=%d" % len(case["templates"])]
         real = trace.get("real") or {}
         ks.append("error=" + (real["error"][0] if real.get("error") else "none"))
+        ks += self._classify_codons(case, real)
+        ks += self._classify_loops(case, real)
         kinds = set()
         for ns in [case["main"]] + [t for _n, t in case["templates"]]:
             for n in ns:
@@ -2084,6 +2264,44 @@ class C12(Check):
             ks.append("taint:%s->%s" % (ORIGIN_NAMES[o], PASS_NAMES[p]))
         return ks
 
+    def _classify_codons(self, case, real):
+        req = req_of(case)
+        if req is None:
+            return []
+        used, bound = all_plain_vars(case["main"]), {k for k, _ in case["ctx"]}
+        ks = []
+        if not req:
+            ks.append("codons:nothing-required")
+        if any(x not in req for x in used):
+            ks.append("codons:omit-a-used-variable" + ("/unbound" if any(x not in req and x not in bound for x in used) else ""))
+        if any(x not in used for x in req):
+            ks.append("codons:declare-an-unused-name" + ("/unbound" if any(x not in used and x not in bound for x in req) else ""))
+        if len(set(req)) < len(req):
+            ks.append("codons:repeated-name")
+        if any(t != "variable" or not rq for t, _n, rq in case["codons"]):
+            ks.append("codons:non-variable-or-optional")
+        if real.get("warnings") and any(k == 0 for k, _n in real["warnings"]):
+            ks.append("codons:up-front-warning")
+        return ks
+
+    def _classify_loops(self, case, real):
+        """each-loops over dict items of which only some carry a key the body names (and nothing else binds it)"""
+        C = dict((k, v) for k, v in case["ctx"])
+        ks = set()
+        for ns in [case["main"]] + [t for _n, t in case["templates"]]:
+            for n in ns:
+                if n[0] != "E":
+                    continue
+                items = seq_items(C.get(n[2])) or []
+                keysets = [({k for k, _ in it["d"]} if (not isinstance(it, str) and "d" in it) else set()) for it in items]
+                for l in n[3]:
+                    if l[0] == "V" and l[1] not in ("item", "index", "first", "last"):
+                        has = [l[1] in ks_ for ks_ in keysets]
+                        if any(has) and not all(has):
+                            ks.add("loop:key-bound-by-some-items-only" + ("/outer-binding" if l[1] in C else "/unbound-otherwise")
+                                   + ("/strict" if case["strict"] else ""))
+        return sorted(ks)
+
     def shrink(self, case, pred):
         c = dict(case)
         for key in ("silent", "init", "describe"):
@@ -2093,8 +2311,19 @@ class C12(Check):
                     c = d
         if c.get("filters"):
             c["filters"] = common.shrink_list(c["filters"], lambda fs: pred({**c, "filters": fs}))
+        if c.get("codons"):
+            c["codons"] = common.shrink_list(c["codons"], lambda cs: len(cs) > 0 and pred({**c, "codons": cs}))
         if "calls" in c:
             c["calls"] = common.shrink_list(c["calls"], lambda cs: len(cs) > 0 and pred({**c, "calls": cs}))
+            for i, o in enumerate(c["calls"]):           # hand-written codons: fewer of them, or none (auto-detection)
+                if o.get("codons"):
+                    bare = {x: y for x, y in o.items() if x != "codons"}
+                    if pred({**c, "calls": c["calls"][:i] + [bare] + c["calls"][i + 1:]}):
+                        c["calls"] = c["calls"][:i] + [bare] + c["calls"][i + 1:]
+                        continue
+                    o2 = {**o, "codons": common.shrink_list(o["codons"], lambda cs: len(cs) > 0 and pred(
+                        {**c, "calls": c["calls"][:i] + [{**o, "codons": cs}] + c["calls"][i + 1:]}))}
+                    c["calls"] = c["calls"][:i] + [o2] + c["calls"][i + 1:]
             for i, o in enumerate(c["calls"]):           # ... and what the remaining other instances are built with
                 for key in ("filters", "templates"):
                     if is_new(o) and o.get(key):
